@@ -711,3 +711,19 @@ def buckets(case, ans):  # noqa: F811
     if case.get("pair"):
         return PL.buckets(case) + ["pair:dump:" + op for op in sorted(set(case["ops_seen"]))]
     return _single["buckets"](case, ans)
+
+
+RULE += (" PAIR STREAM (two LIVE instances; props/pairlib.py, channel `pair`): 600 (quick) cases hold two configs built from ONE template "
+         "(C04's tree generator, the stored-list generator, nested banner / macro blocks): B = A with 1-3 of {a child's text replaced, a child "
+         "re-indented one level deeper / shallower, turned into a comment, blanked, two children swapped, a child inserted / deleted / moved "
+         "under another parent, a run of siblings pushed one level down} (8 % identical, 6 % unrelated), so that parent lines coincide in "
+         "(line number, text) -- line objects hash and compare by that pair -- while the lines below them differ; same or different syntax / "
+         "ignore_blank_lines / comment delimiters / parse options. BOTH are parsed first, then the links + seven views, the extended views "
+         "or the raw stored attributes are dumped in the orders ABA, ABAB, BAB, ABBA, AABA; every dump is judged by the forest oracle on the "
+         "instance it was taken from, compared with the model's answer for THAT instance alone, and an instance must show the same dump "
+         "before and after the other one was looked at. VERIF_NO_PAIR=1 leaves the stream out.")
+LEVEL_NOTE += (" Two live instances: the model is a function of one config (channel `pair` only carries ordinary requests; "
+               "Ccp.Drv.Pair.answers_get: the k-th answer depends on the k-th sub-request alone), so 'what an instance shows does not depend on "
+               "other instances being alive' holds for the model by construction and is MEASURED for the code by the pair stream (hand "
+               "mutations: a module-level table of descendants keyed by line number, ancestor chains kept on the class, an lru_cache on "
+               "family_endpoint -- each dropped at every bootstrap -- are reported by the pair stream and by no single-instance stream).")
